@@ -11,8 +11,8 @@ RULE = ("kinds: steps (non-adaptive method, no intervention: every recorded step
         "implicit methods may shorten only with a logged Newton failure), shift ((t0,tf) vs (t0+c,tf+c) on an autonomous system), "
         "reflect (y'=f(y) on (t0,tf) vs w'=-f(w) on (-t0,-tf)); non-trivial = >=3 full-length steps; distinct by (kind,method,span,dt,shift)")
 ASSUMPTIONS = ["the set of fixed-step methods is computed at run time from is_adaptive", "dt >= 64 ulp of the largest time"]
-FLOORS = {"quick": {"runs_checked": 120, "full_length_steps": 1200, "shift_pairs": 30, "reflect_pairs": 30, "backward_runs": 40, "multi_leg_runs": 12, "richardson_pairs": 6, "facade_runs": 10, "facade_runs_backward": 3},
-          "thorough": {"runs_checked": 1200, "full_length_steps": 12000, "shift_pairs": 120, "reflect_pairs": 120, "backward_runs": 400, "multi_leg_runs": 120, "richardson_pairs": 24, "facade_runs": 100, "facade_runs_backward": 30}}
+FLOORS = {"quick": {"runs_checked": 120, "full_length_steps": 1200, "shift_pairs": 30, "reflect_pairs": 30, "backward_runs": 40, "multi_leg_runs": 12, "richardson_pairs": 6, "facade_runs": 10, "facade_runs_backward": 3, "sliver_remainder_runs": 15},
+          "thorough": {"runs_checked": 1200, "full_length_steps": 12000, "shift_pairs": 120, "reflect_pairs": 120, "backward_runs": 400, "multi_leg_runs": 120, "richardson_pairs": 24, "facade_runs": 100, "facade_runs_backward": 30, "sliver_remainder_runs": 60}}
 SPANS = [(0.0, 2.0), (-5.0, 1.0), (-10.0, -5.0), (10.0, 5.0), (1.0, -5.0), (3.0, -3.0), (0.0, -2.0), (-2.0, 0.0), (-0.5, 0.25), (7.0, 7.5), (100.0, 103.0)]
 SHIFTS = [1.0, -1.0, 7.3, -7.3, 1e3, -1e3]
 K = 64
@@ -72,6 +72,21 @@ def gen_cases(tier, seed):
                 if info["explicit"] and rng.random() < (0.35 if tier == "quick" else 0.5):
                     # the same request through the functional facade: first_step is the step magnitude (scipy's convention), the span gives the direction
                     cases.append(dict(cases[-1], route="solve_ivp", legs=[], dt=abs(cases[-1]["dt"]), by_name=bool(rng.random() < 0.5), pseed=int(rng.integers(1 << 30))))
+    # sliver remainders: the span is a whole number of steps plus (or minus) a tiny fraction of one, so that the distance left before the
+    # closing step is within a hair of dt - "none is longer" must hold for that step as well (a closing step that absorbs the remainder is longer)
+    rng2 = rng_for(403, seed)
+    for name in fixed:
+        info = M[name]
+        if not info["explicit"]:
+            continue
+        for rep in range(2 if tier == "quick" else 8):
+            span = SPANS[int(rng2.integers(len(SPANS)))]
+            L = abs(span[1] - span[0])
+            nsteps = float(rng2.choice([4, 9, 17, 40])) + float(rng2.choice([1e-9, 1e-6, 1e-3, 4e-3, 9e-3, 0.03, 0.2, -1e-3, -1e-6]))
+            cases.append(dict(kind="steps", method=name, dtype=str(rng2.choice(["float64", "float64", "longdouble"])), span=list(span),
+                              dt=float(rng2.choice([-1, 1])) * L / nsteps, nsteps=nsteps, pseed=int(rng2.integers(1 << 30)), legs=[], sliver=True, cost=nsteps / 10.0))
+            if rng2.random() < 0.4:
+                cases.append(dict(cases[-1], route="solve_ivp", dtype="float64", dt=abs(cases[-1]["dt"]), by_name=bool(rng2.random() < 0.5), pseed=int(rng2.integers(1 << 30))))
     for name in M:
         info = M[name]
         for rep in range(1 if tier == "quick" else 6):
@@ -179,6 +194,8 @@ def _steps(spec, info, prob, dtype, eps, t0, tf, d, tol, rec, feats):
         rec.sample = {"spec": spec, "raised": repr(cause)[:200]}
         return rec.out()
     rec.bump("runs_checked")
+    if spec.get("sliver"):
+        rec.bump("sliver_remainder_runs")
     if d < 0:
         rec.bump("backward_runs")
         if spec.get("route") == "solve_ivp":
